@@ -51,6 +51,7 @@ type engine struct {
 	Subst    string // R4 substitution file (relative to /verif)
 	Race     bool
 	Harness  []string // repo-relative dirs with harness files under /verif/harness
+	NoBuild  bool     // only produce the overlay (rewrite self-test)
 	Skip     string   // harness files whose name contains this are left out (they need another engine's rewrites)
 	StubTest []string // repo-relative dirs whose own _test.go files are replaced by stubs
 }
@@ -206,6 +207,9 @@ func (b *build) buildEngine(e engine) (string, error) {
 	sum, _ := os.ReadFile(filepath.Join(repo, "go.sum"))
 	extra, _ := os.ReadFile(filepath.Join(verif, "sim", "extra.go.sum"))
 	_ = os.WriteFile(filepath.Join(dir, "go.sum"), append(sum, extra...), 0o644)
+	if e.NoBuild {
+		return "", nil
+	}
 	bin := filepath.Join(dir, e.Name+".test")
 	targs := []string{"test", "-c", "-tags", "verif", "-overlay", ovPath, "-modfile", modPath, "-vet=off", "-o", bin}
 	if e.Race {
@@ -914,6 +918,80 @@ func doSelftest(b *build, which string, seed int64, workers int, only string) in
 				}
 				wg.Wait()
 				fmt.Printf("determinism %s variant=%q: %d processes x 32 seeds, %d mismatches\n", e.Name, variant, n, bad)
+			}
+		}
+		if bad > 0 {
+			return 2
+		}
+		return 0
+	case "rewrite":
+		// The repository's own unit tests of the rewritten packages, run against the rewritten
+		// sources with no simulation active (every substituted primitive falls back to the real
+		// one): they must pass as they do on the original sources.
+		bad := 0
+		origRes := map[string]map[string]string{}
+		var mu sync.Mutex
+		for _, e := range engines {
+			if only != "" && e.Name != only {
+				continue
+			}
+			saveH, saveS := e.Harness, e.StubTest
+			e2 := e
+			e2.Name = e.Name + "-rw"
+			e2.StubTest = nil
+			e2.Skip = "_test.go"
+			e2.NoBuild = true
+			if _, err := b.buildEngine(e2); err != nil {
+				fatal(2, "build %s: %v", e2.Name, err)
+			}
+			_, _ = saveH, saveS
+			dir := filepath.Join(b.scratch, e2.Name)
+			run := func(extra []string, pkg string) map[string]string {
+				args := append([]string{"test"}, extra...)
+				args = append(args, "-vet=off", "-count=1", "-json", "-timeout", "25m", "./"+pkg)
+				c := exec.Command(goBin, args...)
+				c.Dir = repo
+				c.Env = goEnv()
+				out, _ := c.Output()
+				res := map[string]string{}
+				for _, line := range strings.Split(string(out), "\n") {
+					var ev struct{ Action, Package, Test string }
+					if json.Unmarshal([]byte(line), &ev) != nil || ev.Test == "" {
+						continue
+					}
+					if ev.Action == "pass" || ev.Action == "fail" || ev.Action == "skip" {
+						res[ev.Test] = ev.Action
+					}
+				}
+				return res
+			}
+			for _, p := range e.SimPkgs {
+				mu.Lock()
+				orig, ok := origRes[p]
+				mu.Unlock()
+				if !ok {
+					orig = run(nil, p)
+					origRes[p] = orig
+				}
+				rw := run([]string{"-tags", "verif", "-overlay", filepath.Join(dir, "overlay.json"), "-modfile", filepath.Join(dir, "go.mod")}, p)
+				np, diff := 0, 0
+				for t, a := range orig {
+					if a == "pass" {
+						np++
+					}
+					if rw[t] != a {
+						diff++
+						fmt.Printf("  DIFFERENT %s %s: original %s, rewritten %q\n", p, t, a, rw[t])
+					}
+				}
+				for t := range rw {
+					if _, ok := orig[t]; !ok {
+						diff++
+						fmt.Printf("  DIFFERENT %s %s: only in rewritten\n", p, t)
+					}
+				}
+				fmt.Printf("rewrite %s (rules %s) %s: %d tests, %d passing on the original sources, %d differences\n", e.Name, e.Rules, p, len(orig), np, diff)
+				bad += diff
 			}
 		}
 		if bad > 0 {
